@@ -1,6 +1,7 @@
 package main
 
 import (
+	"strconv"
 	"fmt"
 	"go/ast"
 	"go/token"
@@ -231,7 +232,7 @@ func c15PatternLiteral(c *Check, a *Anchors) {
 		})
 	}
 	// compile argument
-	compileOK, anchored := false, false
+	compileOK, anchored, dotAll := false, false, false
 	nCompile := 0
 	inspectBody(fb.Body, func(nd ast.Node) bool {
 		call, ok := nd.(*ast.CallExpr)
@@ -262,8 +263,30 @@ func c15PatternLiteral(c *Check, a *Anchors) {
 					usesParts = true
 				}
 			case *ast.BasicLit:
-				if x.Kind == token.STRING && strings.HasPrefix(x.Value, `"^`) && strings.HasSuffix(x.Value, `$"`) {
-					anchored = true
+				if x.Kind == token.STRING {
+					if v := constText(info, x); v != "" {
+						if t, err := strconv.Unquote(v); err == nil {
+							// leading inline flag groups such as (?s) do not affect anchoring
+							flags := ""
+							for strings.HasPrefix(t, "(?") {
+								end := strings.Index(t, ")")
+								if end < 0 || strings.ContainsAny(t[2:end], ":<=!P") {
+									break
+								}
+								flags += t[2:end]
+								t = t[end+1:]
+							}
+							if (strings.HasPrefix(t, "^") || strings.HasPrefix(t, `\A`)) && (strings.HasSuffix(t, "$") || strings.HasSuffix(t, `\z`)) {
+								anchored = true
+								if strings.Contains(flags, "s") {
+									dotAll = true
+								}
+							}
+							if strings.Contains(t, `[\s\S]`) {
+								dotAll = true
+							}
+						}
+					}
 				}
 			}
 			return true
@@ -274,6 +297,7 @@ func c15PatternLiteral(c *Check, a *Anchors) {
 	c.Decide(parts != nil && quoted && compileOK && nCompile == 1, "pattern-literal", "quoted-parts@"+name, fb.Decl.Pos(), "only QuoteMeta'd pieces of the name reach the regexp compiler",
 		fmt.Sprintf("the task name reaches the regexp compiler unquoted (split on '*': %v, every piece QuoteMeta'd: %v, pattern built from the pieces only: %v): '.', '(', '+' ... in a task name are interpreted as regexp syntax (wrong matches, or a panic in MustCompile)", parts != nil, quoted, compileOK))
 	c.Decide(anchored, "pattern-literal", "anchored@"+name, fb.Decl.Pos(), "pattern is ^...$", "the pattern is no longer anchored with ^ and $")
+	c.Decide(dotAll, "pattern-literal", "wildcard-matches-any-character@"+name, fb.Decl.Pos(), "the wildcard group matches every character (s flag)", "the wildcard is `.*` without the s flag: '*' does not match a newline, so it is not true that only '*' is special and every other character literal")
 	// a positive answer only after the regexp matched
 	f := NewFlow(c.P, fb, func(call *ast.CallExpr, obj types.Object) string {
 		if fn, ok := obj.(*types.Func); ok && fn.Pkg() != nil && fn.Pkg().Path() == "regexp" && strings.HasPrefix(fn.Name(), "Find") {
